@@ -1722,7 +1722,7 @@ pub fn gen_api(run: &mut Run, seed: u64, thorough: bool) {
             let k = r.below(7);
             let item = match k {
                 0 | 1 | 2 => {
-                    let loc = if r.chance(1, 5) { 10 + r.below(246) } else { r.below(10) };
+                    let loc = if r.chance(1, 5) { [10usize, 10, 11, 255, 10 + r.below(246)][r.below(5)] } else { r.below(10) };
                     if expect.is_none() {
                         if loc >= 10 {
                             expect = Some("Init(ValidatePskPosition)");
